@@ -18,6 +18,7 @@ CONSTANTS
   DecayEvery = 1
   Split = FALSE
   MaxBurst = 2
+  UWindow = FALSE
   Profile = 1
   Prot2 = {}
   Prot1 = {}
